@@ -120,6 +120,7 @@ inline uint64_t run_ctor_env(const std::vector<CtorOp>& ops, size_t lo, size_t h
                              const std::function<void(const std::string&, const std::string&)>& report, const std::function<void(const std::string&, bool)>& visit,
                              bool check_csr = false) {
   static const int POI[3] = {0x00, 0xFF, 0xA5};
+  static const int RES[3] = {0, 32, 48};  // address of malloc blocks modulo 64 (malloc only promises a multiple of 16)
   uint64_t* sh = (uint64_t*)mmap(0, 4096, PROT_READ | PROT_WRITE, MAP_SHARED | MAP_ANONYMOUS, -1, 0);
   if (sh == MAP_FAILED) machinery_error("mmap");
   uint64_t runs = 0;
@@ -134,7 +135,7 @@ inline uint64_t run_ctor_env(const std::vector<CtorOp>& ops, size_t lo, size_t h
       pid_t p = fork();
       if (p < 0) machinery_error("fork");
       if (p == 0) {
-        alloc_track().poison = POI[e];
+        alloc_track().poison = POI[e]; alloc_track().residue = RES[e];
         unsigned c0 = __builtin_ia32_stmxcsr() & 0xFFC0u;
         sh[e] = ops[k].run();
         unsigned c1 = __builtin_ia32_stmxcsr() & 0xFFC0u;
@@ -143,8 +144,8 @@ inline uint64_t run_ctor_env(const std::vector<CtorOp>& ops, size_t lo, size_t h
       int st; waitpid(p, &st, 0);
       ++runs;
       if (check_csr && WIFEXITED(st) && WEXITSTATUS(st) == 0 && sh[3 + e] && sh[6] != sh[7]) { report(id, sfmt("creating / using / deleting the object leaves the floating-point control register of the calling thread changed (MXCSR control bits 0x%x -> 0x%x): every later floating-point result of that thread depends on it", (unsigned)sh[6], (unsigned)sh[7])); bad = true; break; }
-      if (!WIFEXITED(st) || WEXITSTATUS(st) != 0 || !sh[3 + e]) { report(id, sfmt("creating / using / deleting the object crashes when freshly allocated memory is filled with 0x%02x", POI[e])); bad = true; }
-      else if (e > 0 && sh[e] != sh[0]) { report(id, sfmt("the results differ between freshly allocated memory filled with 0x00 and with 0x%02x: the constructor (or the use) reads uninitialised heap memory", POI[e])); bad = true; }
+      if (!WIFEXITED(st) || WEXITSTATUS(st) != 0 || !sh[3 + e]) { report(id, sfmt("creating / using / deleting the object crashes (or is stopped by the sanitizer) when freshly allocated memory is filled with 0x%02x and malloc blocks start at %d modulo 64", POI[e], RES[e])); bad = true; }
+      else if (e > 0 && sh[e] != sh[0]) { report(id, sfmt("the results differ between freshly allocated memory filled with 0x00 (blocks at 0 mod 64) and with 0x%02x (blocks at %d mod 64): the constructor (or the use) depends on uninitialised heap memory or on the alignment malloc happens to return", POI[e], RES[e])); bad = true; }
     }
     visit(id, false);
   }
